@@ -382,9 +382,14 @@ def gen_hist_hp(rng, tier):
             if r < 0.2:
                 ops.append({"k": "read", "ids": rng.choice([None, sorted(rng.sample(ids[:4], rng.randint(1, 3)))])})
             elif r < 0.6:
-                ops.append({"k": "subset", "ids": rng.sample(ids, rng.randint(1, 4)), "inplace": rng.random() < 0.5})
-            elif r < 0.75:
+                req = rng.sample(ids, rng.randint(1, 4))
+                if rng.random() < 0.2:
+                    req.append(req[0])  # a repeated ID
+                ops.append({"k": "subset", "ids": req, "inplace": rng.random() < 0.5})
+            elif r < 0.72:
                 ops.append({"k": "sort"})
+            elif r < 0.78:
+                ops.append({"k": "index", "force": rng.random() < 0.5})
             elif r < 0.9:
                 ops.append({"k": "query"})
             else:
@@ -438,6 +443,8 @@ def impl_hist_hp(case):
                 e["returned_fresh"] = _hp_query(fresh, gts)
         elif o["k"] == "sort":
             h.sort()
+        elif o["k"] == "index":
+            h.index(force=o["force"])
         elif o["k"] == "merge":
             other = D.Haplotypes(_dir / "h.hap", log=log)
             other.data = {}
@@ -456,6 +463,51 @@ def impl_hist_hp(case):
     return {"trace": trace}
 
 
+HP_FILE = [["H1", True, 0], ["H2", True, 1], ["R1", False, 3], ["H3", True, 2]]  # file order; key = rank under sort()
+
+
+def model_req_hp(case):
+    return {"op": "hapObjRun", "file": HP_FILE, "ops": case["ops"]}
+
+
+def _hp_obs(trace):
+    """what is compared with the Lean machine: the IDs held after every operation, the IDs and the query IDs of a
+    returned copy, the haplotype IDs a query works with (the columns of transform)"""
+    out = []
+    for e in trace:
+        q = e.get("query", {}).get("transform_ids") if "query" in e else None
+        r = None
+        if "returned_ids" in e:
+            r = [e["returned_ids"], e["returned_query"].get("transform_ids")]
+        out.append({"ids": e["ids"], "returned": r, "query": q})
+    return out
+
+
+def model_obs_hp(case, resp):
+    return {"trace": resp["trace"]}
+
+
+def equal_hp(a, b):
+    if "error" in a:
+        return False
+    A = _hp_obs(a["trace"])
+    for x, y in zip(A, b["trace"]):
+        if x["ids"] != y["ids"]:
+            return False
+        for k in ("returned", "query"):
+            if (x[k] is None) != (y[k] is None):
+                return False
+        if x["returned"] is not None:
+            if x["returned"][0] != y["returned"][0]:
+                return False
+            # transform refuses an empty haplotype list / may fail: then there is no column list to compare
+            if x["returned"][1] is not None and x["returned"][1] != y["returned"][1]:
+                return False
+        if x["query"] is not None and x["query"] != y["query"]:
+            return False
+    return len(A) == len(b["trace"])
+
+
 def oracle_hist_hp(case, obs):
     if "error" in obs:
         return f"history raised {obs}"
@@ -465,7 +517,7 @@ def oracle_hist_hp(case, obs):
         if o["k"] == "subset" and not o["inplace"] and e["returned_query"] != e["returned_fresh"]:
             return f"op {k} {o}: the returned copy answers {e['returned_query']}, a fresh object with its records answers {e['returned_fresh']}"
         if o["k"] == "subset" and o["inplace"]:
-            if any(i not in o["ids"] for i in e["ids"]) or e["ids"] != [i for i in o["ids"] if i in e["ids"]]:
+            if any(i not in o["ids"] for i in e["ids"]) or e["ids"] != [i for i in dict.fromkeys(o["ids"]) if i in e["ids"]]:
                 return f"op {k} {o}: object now holds {e['ids']}"
     return None
 
@@ -480,6 +532,8 @@ CHECK = Check(
         "C12.copy_starts_clean",
         "C12.byid_refines_spec",
         "C12.positions_current",
+        "C12.haplotypes_query_current",
+        "C12.haplotypes_subset_sound",
         "C12.reread_refuted_before_fix",
     ],
     sections=[
@@ -516,14 +570,17 @@ CHECK = Check(
         ),
         Section(
             name="haplotypes_histories",
-            theorems=["C12.cache_inv"],
+            theorems=["C12.haplotypes_query_current", "C12.haplotypes_subset_sound"],
             gen=gen_hist_hp,
             impl=impl_hist_hp,
+            model_req=model_req_hp,
+            model_obs=model_obs_hp,
+            equal=equal_hp,
             oracle=oracle_hist_hp,
             setup=setup,
             teardown=teardown,
             nontrivial=lambda c, o: C.jdump(c) if len(c["ops"]) > 3 else None,
-            rule="seeded random histories on a Haplotypes object (read all / by IDs, subset in place / copying, sort, merge) with to_str() and transform() as by-ID queries, compared with a fresh object holding the same records (oracle only: the type_ids cache has no Lean machine yet)",
+            rule="seeded random histories on a Haplotypes object (read all / by IDs, subset in place / copying, sort, merge) with to_str() and transform() as by-ID queries, compared with the Lean object machine HapObj (IDs held after every operation, IDs and query columns of returned copies, the haplotype columns transform works with) and with a fresh object holding the same records",
         ),
     ],
     trusted=["Python dict semantics of the caches (insertion order, last-wins zip)", "fresh reads give the file view handed to the model's `read` (C08 covers the readers)", "numpy fancy indexing picks the listed rows/columns"],
